@@ -7,7 +7,7 @@
 use bytes::BytesMut;
 use domain::base::iana::{Class, Rtype};
 use domain::base::message_builder::{
-    AdditionalBuilder, AnswerBuilder, AuthorityBuilder, HashCompressor, MessageBuilder, QuestionBuilder, StaticCompressor, StreamTarget, TreeCompressor,
+    AdditionalBuilder, AnswerBuilder, AuthorityBuilder, HashCompressor, MessageBuilder, QuestionBuilder, RecordSectionBuilder, StaticCompressor, StreamTarget, TreeCompressor,
 };
 use domain::base::name::Name;
 use domain::base::wire::Composer;
@@ -152,6 +152,17 @@ enum Op {
     LimPlus(usize),
     LimHere,
     Clr,
+    // --- the ROUTE by which an operation reaches the message (the same items, the same model) ---
+    /// record sp[.0] pushed by code that is generic over the record section and knows nothing of it but
+    /// the `RecordSectionBuilder` trait; handed over as .1: 1 = Record by value, 2 = &Record,
+    /// 3 = the class-less tuple (owner, ttl, data) (class IN is implied)
+    RVia(usize, u8),
+    /// question .0 handed over as .1: 1 = &Question, 2 = (name, type, class), 3 = (name, type)
+    /// (Op::Q hands over a Question by value)
+    QForm(usize, u8),
+    /// push limit of (current length + .0) set on the underlying message builder reached through
+    /// .1: 1 = DerefMut of the section builder, 2 = AsMut<MessageBuilder> (Op::LimPlus uses as_builder_mut())
+    LimVia(usize, u8),
 }
 
 #[derive(Clone, Debug, PartialEq, Eq, Hash)]
@@ -191,6 +202,39 @@ impl<T: Clone> Clone for B<T> {
     }
 }
 impl<T: Composer> B<T> {
+    /// the underlying message builder through DerefMut (via 1) or AsMut<MessageBuilder> (otherwise)
+    fn mb_via(&mut self, via: u8) -> &mut MessageBuilder<T> {
+        use std::ops::DerefMut;
+        match (self, via) {
+            (B::Q(b), 1) => b.deref_mut(),
+            (B::An(b), 1) => b.deref_mut(),
+            (B::Ns(b), 1) => b.deref_mut(),
+            (B::Ar(b), 1) => b.deref_mut(),
+            (B::Q(b), _) => AsMut::<MessageBuilder<T>>::as_mut(b),
+            (B::An(b), _) => AsMut::<MessageBuilder<T>>::as_mut(b),
+            (B::Ns(b), _) => AsMut::<MessageBuilder<T>>::as_mut(b),
+            (B::Ar(b), _) => AsMut::<MessageBuilder<T>>::as_mut(b),
+        }
+    }
+    /// the header counts as MessageBuilder::counts() shows them through Deref of the section builder
+    fn counts_deref(&self) -> [usize; 4] {
+        let c = match self {
+            B::Q(b) => b.counts(),
+            B::An(b) => b.counts(),
+            B::Ns(b) => b.counts(),
+            B::Ar(b) => b.counts(),
+        };
+        [c.qdcount() as usize, c.ancount() as usize, c.nscount() as usize, c.arcount() as usize]
+    }
+    /// the message octets through AsRef<[u8]> of the section builder
+    fn slice_asref(&self) -> &[u8] {
+        match self {
+            B::Q(b) => AsRef::<[u8]>::as_ref(b),
+            B::An(b) => AsRef::<[u8]>::as_ref(b),
+            B::Ns(b) => AsRef::<[u8]>::as_ref(b),
+            B::Ar(b) => AsRef::<[u8]>::as_ref(b),
+        }
+    }
     fn mb(&mut self) -> &mut MessageBuilder<T> {
         match self {
             B::Q(b) => b.as_builder_mut(),
@@ -236,6 +280,17 @@ fn pad_record(len: usize) -> Record<N, Rd> {
     Record::new(name(&[b"a"]), Class::IN, Ttl::from_secs(7), Rd::Unknown(UnknownRecordData::from_octets(Rtype::from_int(65283), vec![0xEE; len]).unwrap()))
 }
 
+/// Code generic over the record section: all it knows of `S` is the trait (as response-assembling
+/// helpers and the validator's message rebuilding are written).
+fn push_through_trait<T: Composer, S: RecordSectionBuilder<T>>(section: &mut S, rec: &Record<N, Rd>, form: u8) -> bool {
+    match form {
+        1 => section.push(rec.clone()),
+        2 => section.push(rec),
+        _ => section.push((rec.owner().clone(), rec.ttl(), rec.data().clone())),
+    }
+    .is_ok()
+}
+
 fn push_any<T: Tgt>(b: B<T>, rec: Record<N, Rd>) -> (B<T>, Option<bool>) {
     match b {
         B::An(mut x) => {
@@ -278,6 +333,40 @@ fn apply<T: Tgt>(b: B<T>, op: Op, sp: &[RSpec]) -> (B<T>, Option<bool>) {
             }
             other => (other, None),
         },
+        Op::QForm(i, form) => match b {
+            B::Q(mut q) => {
+                let (n, t) = (name(QS[i].0), Rtype::from_int(QS[i].1));
+                let r = match form {
+                    1 => q.push(&Question::new(n, t, Class::IN)),
+                    2 => q.push((n, t, Class::IN)),
+                    _ => q.push((n, t)),
+                }
+                .is_ok();
+                (B::Q(q), Some(r))
+            }
+            other => (other, None),
+        },
+        Op::RVia(i, form) => match b {
+            B::An(mut x) => {
+                let r = push_through_trait::<T, _>(&mut x, &sp[i].rec, form);
+                (B::An(x), Some(r))
+            }
+            B::Ns(mut x) => {
+                let r = push_through_trait::<T, _>(&mut x, &sp[i].rec, form);
+                (B::Ns(x), Some(r))
+            }
+            B::Ar(mut x) => {
+                let r = push_through_trait::<T, _>(&mut x, &sp[i].rec, form);
+                (B::Ar(x), Some(r))
+            }
+            other => (other, None),
+        },
+        Op::LimVia(k, via) => {
+            let mut b = b;
+            let l = b.slice().len() + k;
+            b.mb_via(via).set_push_limit(l);
+            (b, None)
+        }
         Op::R(i) => match b {
             B::An(mut x) => {
                 let r = if PUSH_REF.load(AO::Relaxed) { x.push_ref(&sp[i].rec).is_ok() } else { x.push(sp[i].rec.clone()).is_ok() };
@@ -425,13 +514,13 @@ fn apply<T: Tgt>(b: B<T>, op: Op, sp: &[RSpec]) -> (B<T>, Option<bool>) {
 
 fn enabled(m: &Model, op: Op) -> bool {
     match op {
-        Op::Q(_) => m.stage == 0,
-        Op::R(_) => m.stage >= 1,
+        Op::Q(_) | Op::QForm(..) => m.stage == 0,
+        Op::R(_) | Op::RVia(..) => m.stage >= 1,
         Op::Opt | Op::Opt2 => m.stage == 3 && !m.sections[2].contains(&Item::Opt) && !m.sections[2].contains(&Item::Opt2),
         Op::PadTo(_) => m.stage >= 1,
         Op::Goto(st) => st != m.stage,
         Op::Rewind => true,
-        Op::LimPlus(_) | Op::LimHere => true,
+        Op::LimPlus(_) | Op::LimHere | Op::LimVia(..) => true,
         Op::Clr => m.limit.is_some(),
     }
 }
@@ -504,6 +593,13 @@ fn check_state<T: Tgt>(cfg: &Cfg<T>, b: &B<T>, m: &Model, sp: &[RSpec]) -> Resul
     let got_counts: Vec<usize> = raw.counts.iter().map(|c| *c as usize).collect();
     if got_counts != want_counts {
         return Err(("header-counts".into(), format!("header counts {:?}, successful pushes {:?}", got_counts, want_counts)));
+    }
+    // the same counts and octets seen through the other views the section builders offer
+    if b.counts_deref() != want_counts {
+        return Err(("header-counts-through-deref".into(), format!("counts() through Deref of the section builder shows {:?}, successful pushes {:?}", b.counts_deref(), want_counts)));
+    }
+    if b.slice_asref() != octets {
+        return Err(("as_ref-differs".into(), "AsRef<[u8]> of the section builder shows other octets than as_slice()".into()));
     }
     for (i, q) in raw.questions.iter().enumerate() {
         let (l, t) = QS[m.questions[i]];
@@ -650,8 +746,8 @@ fn dfs<T: Tgt>(sh: &Shared, cfg: &Cfg<T>, b: &B<T>, m: &Model, hist: &mut Vec<Op
                 let mut nm = m.clone();
                 let mut tainted = false;
                 match (op, res) {
-                    (Op::Q(i), Some(true)) => nm.questions.push(i),
-                    (Op::R(i), Some(true)) => nm.sections[m.stage - 1].push(Item::R(i)),
+                    (Op::Q(i), Some(true)) | (Op::QForm(i, _), Some(true)) => nm.questions.push(i),
+                    (Op::R(i), Some(true)) | (Op::RVia(i, _), Some(true)) => nm.sections[m.stage - 1].push(Item::R(i)),
                     (Op::Opt, Some(true)) => nm.sections[2].push(Item::Opt),
                     (Op::Opt2, Some(true)) => {
                         nm.sections[2].push(Item::Opt2);
@@ -699,7 +795,7 @@ fn dfs<T: Tgt>(sh: &Shared, cfg: &Cfg<T>, b: &B<T>, m: &Model, hist: &mut Vec<Op
                             nm.sections[m.stage - 1].clear();
                         }
                     }
-                    (Op::LimPlus(k), _) => nm.limit = Some(before.len() + k),
+                    (Op::LimPlus(k), _) | (Op::LimVia(k, _), _) => nm.limit = Some(before.len() + k),
                     (Op::LimHere, _) => nm.limit = Some(before.len()),
                     (Op::Clr, _) => nm.limit = None,
                     _ => {}
@@ -733,7 +829,7 @@ fn dfs<T: Tgt>(sh: &Shared, cfg: &Cfg<T>, b: &B<T>, m: &Model, hist: &mut Vec<Op
                         }
                         Ok(Err((class, why))) => {
                             let big = if nb.slice().len() >= 0x4000 { ">=0x4000" } else { "<0x4000" };
-                            sh.ctx.violation(&format!("C02|{}|{}|message-size{}", comp_of(cfg.name), class, big), &why, case(hist));
+                            sh.ctx.violation(&format!("C02|{}|{}|message-size{}{}", comp_of(cfg.name), class, big, route_class(op)), &why, case(hist));
                         }
                         Err(p) => {
                             sh.ctx.violation(&format!("C02|{}|oracle-panic|{}", comp_of(cfg.name), panic_class(&p)), &p, case(hist));
@@ -746,10 +842,23 @@ fn dfs<T: Tgt>(sh: &Shared, cfg: &Cfg<T>, b: &B<T>, m: &Model, hist: &mut Vec<Op
     }
 }
 
+/// Signature suffix naming the route of the operation after which the state is wrong (empty for the
+/// inherent methods, so that the signatures of the other passes stay as they are).
+fn route_class(op: Op) -> &'static str {
+    match op {
+        Op::RVia(..) => "|record-through-section-trait",
+        Op::QForm(..) => "|question-by-ref-or-tuple",
+        Op::LimVia(..) => "|limit-through-deref-or-as_mut",
+        _ => "",
+    }
+}
+
 fn op_kind(op: Op) -> &'static str {
     match op {
         Op::Q(_) => "question",
         Op::R(_) => "record",
+        Op::QForm(..) => "question-by-ref-or-tuple",
+        Op::RVia(..) => "record-through-section-trait",
         Op::Opt | Op::Opt2 => "opt",
         Op::PadTo(_) => "pad",
         _ => "other",
@@ -859,8 +968,8 @@ fn shared_clone<'a>(sh: &Shared<'a>) -> Shared<'a> {
 fn advance_model(m: &mut Model, op: Op, res: Option<bool>, before_len: usize) {
     match (op, res) {
         (Op::PadTo(_), _) => unreachable!("PadTo is never a prefix operation"),
-        (Op::Q(i), Some(true)) => m.questions.push(i),
-        (Op::R(i), Some(true)) => m.sections[m.stage - 1].push(Item::R(i)),
+        (Op::Q(i), Some(true)) | (Op::QForm(i, _), Some(true)) => m.questions.push(i),
+        (Op::R(i), Some(true)) | (Op::RVia(i, _), Some(true)) => m.sections[m.stage - 1].push(Item::R(i)),
         (Op::Opt, Some(true)) => m.sections[2].push(Item::Opt),
         (Op::Opt2, Some(true)) => {
             m.sections[2].push(Item::Opt2);
@@ -888,7 +997,7 @@ fn advance_model(m: &mut Model, op: Op, res: Option<bool>, before_len: usize) {
                 m.sections[m.stage - 1].clear();
             }
         }
-        (Op::LimPlus(k), _) => m.limit = Some(before_len + k),
+        (Op::LimPlus(k), _) | (Op::LimVia(k, _), _) => m.limit = Some(before_len + k),
         (Op::LimHere, _) => m.limit = Some(before_len),
         (Op::Clr, _) => m.limit = None,
         _ => {}
@@ -897,7 +1006,21 @@ fn advance_model(m: &mut Model, op: Op, res: Option<bool>, before_len: usize) {
 
 fn parse_op(s: &str) -> Op {
     let num = |s: &str| s.trim_end_matches(')').split('(').nth(1).unwrap().parse::<usize>().unwrap();
-    if s.starts_with("Q(") {
+    let two = |s: &str| {
+        let inner = s.trim_end_matches(')').split('(').nth(1).unwrap().to_string();
+        let mut it = inner.split(',').map(|x| x.trim().parse::<usize>().unwrap());
+        (it.next().unwrap(), it.next().unwrap() as u8)
+    };
+    if s.starts_with("RVia(") {
+        let (a, b) = two(s);
+        Op::RVia(a, b)
+    } else if s.starts_with("QForm(") {
+        let (a, b) = two(s);
+        Op::QForm(a, b)
+    } else if s.starts_with("LimVia(") {
+        let (a, b) = two(s);
+        Op::LimVia(a, b)
+    } else if s.starts_with("Q(") {
         Op::Q(num(s))
     } else if s.starts_with("R(") {
         Op::R(num(s))
@@ -1525,6 +1648,7 @@ struct Env<'a> {
     replay: &'a Option<(String, Vec<Op>)>,
     small_ops: &'a [Op],
     pad_ops: &'a [Op],
+    via_ops: &'a [Op],
     depth: usize,
     total_tr: &'a AtomicU64,
     cfg_names: std::sync::Mutex<Vec<&'static str>>,
@@ -1562,6 +1686,20 @@ fn go<T: Tgt + Send + Sync>(env: &Env, cfg: &Cfg<T>) {
     ROUTE.store(0, AO::Relaxed);
     INIT.store(0, AO::Relaxed);
     PUSH_REF.store(false, AO::Relaxed);
+    // pass R: the route alphabet - every push operation by every route the API offers to it (inherent
+    // method / RecordSectionBuilder in section-generic code x the forms an item is handed over in;
+    // push limit through DerefMut and AsMut), freely mixed in one sequence, every section reachable
+    for route in if env.sh.ctx.quick() { &[0u8][..] } else { &[0u8, 2][..] } {
+        ROUTE.store(*route, AO::Relaxed);
+        let shr = Shared { ops: env.via_ops, ..shared_clone(env.sh) };
+        run_cfg(&shr, cfg, env.depth - 1, None);
+        let tr = shr.transitions.load(AO::Relaxed);
+        env.total_tr.fetch_add(tr, AO::Relaxed);
+        env.stats.count_n(&format!("{}.via.route{route}.transitions", cfg.name), tr);
+        env.stats.count_n(&format!("{}.via.route{route}.pushes_ok", cfg.name), shr.pushes_ok.load(AO::Relaxed));
+        env.stats.count_n(&format!("{}.via.route{route}.pushes_failed", cfg.name), shr.pushes_err.load(AO::Relaxed));
+    }
+    ROUTE.store(0, AO::Relaxed);
     // pass 2: pad-focused alphabet crossing 0x3FFF and 0xFFFF
     if !is_array {
         let sh2 = Shared { ops: env.pad_ops, ..shared_clone(env.sh) };
@@ -1604,8 +1742,20 @@ fn main() {
     let small_ops: Vec<Op> = ops.iter().cloned().filter(|o| !matches!(o, Op::R(6) | Op::R(7))).collect();
     let pad_ops: Vec<Op> = vec![Op::Q(0), Op::R(0), Op::R(1), Op::R(2), Op::R(4), Op::R(6), Op::R(7), Op::R(8), Op::Goto(1), Op::Goto(3), Op::Rewind, Op::Goto(0), Op::LimPlus(30), Op::PadTo(0x3FFE), Op::PadTo(0x3FFF), Op::PadTo(0x4000), Op::PadTo(0x4001)];
 
+    // Route alphabet: the same small items by every route. Records 0 (A a.), 1 (NS b.a. -> c.b.a.:
+    // compressible owner and data), 2 (MX B.A. -> a.: case variant) x {inherent push, section trait x
+    // (Record, &Record, class-less tuple)}; question forms; the limit through every way to the inner builder.
+    let mut via_ops: Vec<Op> = vec![Op::Q(0), Op::QForm(0, 1), Op::QForm(1, 2), Op::QForm(1, 3)];
+    for i in 0..3 {
+        via_ops.push(Op::R(i));
+        for form in 1..=3u8 {
+            via_ops.push(Op::RVia(i, form));
+        }
+    }
+    via_ops.extend([Op::Opt, Op::Goto(0), Op::Goto(1), Op::Goto(2), Op::Goto(3), Op::Rewind, Op::LimVia(30, 1), Op::LimVia(30, 2), Op::Clr]);
+
     let vals = mc::rgen::values_ex(mc::rgen::Tier::Compact).0;
-    let env = Env { vals: &vals, sh: &sh, stats: &stats, replay: &replay, small_ops: &small_ops, pad_ops: &pad_ops, depth, total_tr: &total_tr, cfg_names: std::sync::Mutex::new(Vec::new()) };
+    let env = Env { via_ops: &via_ops, vals: &vals, sh: &sh, stats: &stats, replay: &replay, small_ops: &small_ops, pad_ops: &pad_ops, depth, total_tr: &total_tr, cfg_names: std::sync::Mutex::new(Vec::new()) };
     cfgs!(env);
     cfg_names = env.cfg_names.into_inner().unwrap();
     let tr = total_tr.load(AO::Relaxed);
@@ -1628,6 +1778,11 @@ fn main() {
             "alphabet": ops.iter().map(|o| format!("{:?}", o)).collect::<Vec<_>>(),
             "every_type": {"values": vals.len(), "contexts": ["question + value + sentinel", "question + NS (names to compress against) + value + sentinel", "value + same value again + sentinel"], "rule": "every value of the shared generator's compact menu (all record types) pushed on every configuration; the independent reader checks counts, fixed fields, RDATA literal octets and every embedded name against the generator's reference wire, the neighbours, pointers, the library's reader and the stream prefix"},
             "pad_alphabet": pad_ops.iter().map(|o| format!("{:?}", o)).collect::<Vec<_>>(),
+            "route_alphabet": {
+                "ops": via_ops.iter().map(|o| format!("{:?}", o)).collect::<Vec<_>>(),
+                "depth": depth - 1,
+                "rule": "every sequence to the depth bound, per configuration, over an alphabet in which each push operation occurs once per ROUTE: records by the inherent push of the section builder and by RecordSectionBuilder::push called from code generic over the section (Record, &Record, class-less tuple), questions as Question / &Question / (name,type,class) / (name,type), the push limit set through DerefMut and through AsMut<MessageBuilder>; the routes are mixed freely within a sequence and reach all three record sections; same model and same oracle as the general alphabet (items per section and header counts read by the independent reader, failed push leaves the octets unchanged, limit is an upper bound). In every state of every pass the counts seen through Deref (counts()) and the octets seen through AsRef<[u8]> must equal what the independent reader finds",
+            },
             "samples": samples,
             "counters": stats.counters_json(),
         }),
